@@ -203,6 +203,10 @@ class Paths:
                         continue
                     ty = _place_ty(fn.body, pl)
                     if _has_mut_ref(ty):
+                        if not pl["p"] and isinstance(ty, dict) and "ref" in ty:
+                            tgt = po._mut_ref_target(pl["l"], k, n, 0)
+                            if tgt is not None and "*" not in tgt[1] and tgt[0] > fn.body["argc"]:
+                                continue  # `&mut local`: the callee can only change a local of this function
                         if ptr_root(po.operand(a, k, n))[0] in ("param", "upvar", "unknown", "loop", "callind"):
                             ext = True
                 ev.append(("call", node, ext, _ret_ty(fn.body, t)))
@@ -238,8 +242,9 @@ class Paths:
         ret = None
         for e in events:
             if e[0] == "write":
+                lv0 = subst(e[1], lambda n: n[1] if n[0] == "update" else None)   # the place, not its history
                 for st in states:
-                    st.effects.append(("write", self._val(st, e[1]), self._val(st, e[2])))
+                    st.effects.append(("write", self._val(st, lv0), self._val(st, e[2])))
             elif e[0] == "cond":
                 nxt = []
                 for st in states:
@@ -348,8 +353,7 @@ class Paths:
         """the call node with the expansions made so far substituted into its arguments (raw form: the key under
         which later trees contain it)"""
         env = st.env
-        if not env:
-            return node
+        # always rebuilt: subst re-sorts commutative operands, and later trees are looked up in their rebuilt form
         args = tuple(subst(a, lambda n: env.get(n)) for a in node[3])
         return node[:3] + (args,) + node[4:]
 
@@ -929,4 +933,89 @@ def entails(facts, goal):
         for f in facts:
             if f[0] == "variant" and f[1] == goal[1] and set(f[2]) <= set(goal[2]):
                 return True
+    return False
+
+
+# ---- guard sets ---------------------------------------------------------------------------------------------
+def strip_casts(t):
+    return subst(t, lambda n: n[1] if n[0] == "cast" else None)
+
+
+def _fact_nocast(f):
+    return tuple(strip_casts(x) if _is_tree(x) else x for x in f)
+
+
+def holds(facts, goal):
+    """does the conjunction `facts` establish `goal`?  Both are compared modulo integer casts.
+    goal: a fact, or ('any', goal…) (one of), ('all', goal…), or ('alt', goal…) (equivalent spellings of one condition:
+    established / violated as soon as one spelling is)."""
+    if goal[0] in ("any", "alt"):
+        return any(holds(facts, g) for g in goal[1:])
+    if goal[0] == "all":
+        return all(holds(facts, g) for g in goal[1:])
+    fs = [_fact_nocast(f) for f in facts]
+    g = _fact_nocast(goal)
+    if entails(fs, g):
+        return True
+    # x < a+1  <=>  x <= a ; 0 < n  <=>  n != 0 (unsigned)
+    if g[0] == "ne" and g[2] == ("const", 0):
+        return entails(fs, ("lt", ("const", 0), g[1]))
+    return False
+
+
+def violated(facts, goal):
+    """does `facts` establish the negation of `goal`?  (for 'all' goals: of one member; 'any': of every member)"""
+    if goal[0] in ("all", "alt"):
+        return any(violated(facts, g) for g in goal[1:])
+    if goal[0] == "any":
+        return all(violated(facts, g) for g in goal[1:])
+    n = _negate(goal)
+    if n is None:
+        return False
+    if holds(facts, n):
+        return True
+    if goal[0] == "ne" and goal[2] == ("const", 0):
+        return holds(facts, ("le", goal[1], ("const", 0)))
+    if goal[0] == "lt" and goal[1] == ("const", 0):
+        return holds(facts, ("eq", goal[2], ("const", 0)))
+    return False
+
+
+def check_guarded(summs, is_guarded, needs):
+    """Guard discipline of a function given by its path summaries.
+    is_guarded(summ) -> True for paths that perform the guarded action.
+    needs: {name: goal}.  Returns (missing, unjustified): names of goals some acting path has not established, and
+    the non-acting paths (as fact lists) on which no goal is violated (the action is withheld although it is allowed)."""
+    missing, unjustified = set(), []
+    for sm in summs:
+        if is_guarded(sm):
+            for k, g in needs.items():
+                if not holds(sm.facts, g):
+                    missing.add(k)
+        else:
+            if not any(violated(sm.facts, g) for g in needs.values()):
+                unjustified.append(sm)
+    return sorted(missing), unjustified
+
+
+def passes_result(sm, node):
+    """does path summary `sm` return the outcome of call `node` unchanged?  (`call`, `call?; Ok(())`,
+    `match call { Ok(v) => Ok(v), Err(e) => Err(e) }` and `if let Err(e) = call { return Err(e) } Ok(())` all do)"""
+    n4 = node[:4]
+    r = sm.ret
+    if r[0] == "call" and r[:4] == n4:
+        return True
+    for f in sm.facts:
+        if f[0] == "variant" and f[1][0] == "call" and f[1][:4] == n4 and len(f[2]) == 1:
+            v = f[2][0]
+            vo = variant_of(r)
+            if vo is None or vo[1] != v:
+                return False
+            if v in ("None",):
+                return True
+            inner = r[2][0] if r[2] else None
+            if v in ("Ok", "Some"):
+                return inner == UNIT or (inner is not None and inner[0] == "payload" and inner[1][:4] == n4)
+            if v == "Err":
+                return inner is not None and inner[0] == "errpayload" and inner[1][:4] == n4
     return False
